@@ -343,14 +343,14 @@ theorem logop_scan_spec (f : Nat → Nat → Nat) (s : St) (a b : Src) (A Bl : L
 theorem Wrote.logop {s1 s2 : St} {w : Nat} {R : List Nat} (W : Wrote s1 s2 w R) (f : Nat → Nat → Nat)
     (hf : ∀ a b, a < B → b < B → f a b < B) (a b : Src) (A Bl : List Nat) (n : Nat)
     (Da : Den s2 a A) (Db : Den s2 b Bl) (ha : n ≤ A.length) (hb : n ≤ Bl.length) (hA : Limbs A) (hB : Limbs Bl)
-    (hn : n ≤ R.length) :
+    (hn : n ≤ (s1.h w).buf.alloc) :
     Wrote s1 (logop_n f s2 (s1.PTR w) a b n) w (List.zipWith f (A.take n) (Bl.take n) ++ R.drop n) := by
   obtain ⟨ea, oka⟩ := Da.rd n ha
   obtain ⟨eb, okb⟩ := Db.rd n hb
   have hlen : (List.zipWith f (A.take n) (Bl.take n)).length = n := by simp; omega
   have W' := (W.chk true rfl).wr 0 (List.zipWith f (A.take n) (Bl.take n))
     (Limbs_zipWith f hf _ _ (Limbs_take hA _) (Limbs_take hB _)) (by omega)
-    (by rw [hlen]; have := W.fit; rw [W.alloc] at this; omega)
+    (by rw [hlen]; omega)
   simp only [add_zero_ptr, List.take_zero, List.nil_append, Nat.zero_add, hlen] at W'
   simpa [logop_n, ea, eb, oka, okb] using W'
 
@@ -364,6 +364,34 @@ theorem Wrote.copy {s1 s2 : St} {w : Nat} {R : List Nat} (W : Wrote s1 s2 w R) (
   have W' := (W.chk true rfl).wr k ((A.drop k).take n) (Limbs_take (Limbs_drop hA _) _) hk (by rw [hlen]; exact hfit)
   rw [hlen] at W'
   simpa [copy_S, ea, oka] using W'
+
+
+/-- `MPN_COPY (rp + k, xp + k, n - k); for (i = k - 1; i >= 0; i--) rp[i] = f (ap[i], bp[i]);` on a fresh state
+    (`xp` may be `ap` or `bp`, and any of them may be the destination's own block) -/
+theorem Wrote.cat {s1 : St} {w : Nat} (hs : s1.ok = true) (hb : BWF (s1.h w).buf) (f : Nat → Nat → Nat)
+    (hf : ∀ a b, a < B → b < B → f a b < B) (a b x : Src) (A Bl X : List Nat) (k : Nat)
+    (Da : Den s1 a A) (Db : Den s1 b Bl) (Dx : Den s1 x X) (ha : k ≤ A.length) (hbl : k ≤ Bl.length) (hx : k ≤ X.length)
+    (hA : Limbs A) (hB : Limbs Bl) (hX : Limbs X) (hfit : X.length ≤ (s1.h w).buf.alloc) :
+    Wrote s1 (logop_n f (copy_S s1 ((s1.PTR w).add k) (x.add k) (X.length - k)) (s1.PTR w) a b k) w
+      (List.zipWith f (A.take k) (Bl.take k) ++ X.drop k) := by
+  have W0 := Wrote.refl s1 w k hs hb (by omega)
+  have hR0 : ((s1.h w).buf.limbs.take k).length = k := by rw [List.length_take, hb.1]; omega
+  generalize (s1.h w).buf.limbs.take k = R0 at W0 hR0
+  have W1 := W0.copy x X k (X.length - k) Dx (by omega) hX (by omega) (by omega)
+  have Da' : Den (copy_S s1 ((s1.PTR w).add k) (x.add k) (X.length - k)) a (A.take k) :=
+    ((Da.take k).chk _).wr _ _ (by simp)
+  have Db' : Den (copy_S s1 ((s1.PTR w).add k) (x.add k) (X.length - k)) b (Bl.take k) :=
+    ((Db.take k).chk _).wr _ _ (by simp)
+  have W2 := W1.logop f hf a b (A.take k) (Bl.take k) k Da' Db' (by simp; omega) (by simp; omega)
+    (Limbs_take hA _) (Limbs_take hB _) (by omega)
+  have e : (List.take k R0 ++ List.take (X.length - k) (List.drop k X) ++ List.drop (k + (X.length - k)) R0).drop k
+      = X.drop k := by
+    have e1 : List.take k R0 = R0 := List.take_of_length_le (by omega)
+    have e2 : List.take (X.length - k) (List.drop k X) = X.drop k := List.take_of_length_le (by simp)
+    have e3 : List.drop (k + (X.length - k)) R0 = [] := List.drop_of_length_le (by omega)
+    rw [e1, e2, e3, List.append_nil, List.drop_left' hR0]
+  rw [e, List.take_take, List.take_take, Nat.min_self] at W2
+  exact W2
 
 /-- `cy = mpn_add_1 (rp, rp, n, 1); if (cy) { rp[n] = cy; n++; }` on what has been written -/
 theorem Wrote.addOne {s1 s2 : St} {w : Nat} {R : List Nat} (W : Wrote s1 s2 w R) (hne : R ≠ [])
